@@ -17,7 +17,7 @@ RULE = ('timestamps are whole hours from 2020-01-01 (index points on a 6-hour gr
         'bound positions x 4 brackets. stitch cases: 1-4 series, increasing / non-strict / decreasing bound lists given as ub, lb or both, '
         'n in 1..number of series. unslice cases: stitch, df_unslice, stitch again. Every result is compared cell by cell (index and values) '
         'in Coq with M_slice; the oracle recomputes from the property text which timestamps belong to the window / to which interval, and '
-        'from which series each column must come, by plain loops over the real output. Stream G (1 500): index shuffled / newest-first / with 2-3 rows per timestamp, all brackets, dates and times of day, wrap-around (rows sharing a timestamp are compared as a multiset after sort_index). Varied in the random streams: bounds as datetime / date / Timestamp / np.datetime64 / YYYY-MM-DD / yyyymmdd, eras 1700 / 1970 / 2020 / 2250, keyword and tuple call forms, Series name / column labels / index name, DatetimeIndex input, 150-400 row series, up to 8 series, one series with several windows. '
+        'from which series each column must come, by plain loops over the real output. Stream G (1 500): index shuffled / newest-first / with 2-3 rows per timestamp, all brackets, dates and times of day, wrap-around (rows sharing a timestamp are compared as a multiset after sort_index). Stitched series carry names in 50 % of the list cases (distinct codes, all the same name, some unnamed, ints) and are one-column frames in 15 %. Varied in the random streams: bounds as datetime / date / Timestamp / np.datetime64 / YYYY-MM-DD / yyyymmdd, eras 1700 / 1970 / 2020 / 2250, keyword and tuple call forms, Series name / column labels / index name, DatetimeIndex input, 150-400 row series, up to 8 series, one series with several windows. '
         'non-trivial = a bound coincides with an index point, '
         'a time-of-day bound, or more than one series; distinct by full case')
 EXPLANATION = ('theorems C13_* (coq/props/C13.v) hold for series of any length and any bounds: a single slice is exactly the filter of the rows '
@@ -30,7 +30,7 @@ EXPLANATION = ('theorems C13_* (coq/props/C13.v) hold for series of any length a
 TRUSTED = ['modelled, not verified: pandas 3.0 df[lb:ub] on a sorted DatetimeIndex, boolean-mask selection, DatetimeIndex.time, '
            'pd.concat (rows, and axis=1 outer join), sort_index, dictable.listby grouping in df_unslice (compared with the model on every run)',
            'harness/props/c13.py rendering of inputs and observations']
-ASSUMPTIONS = ['single slices: the index may be in any stored order and repeat timestamps; stitching / df_unslice: strictly increasing timestamps', 'elements of a stitched list are Series; bound lists are monotone and as long as the list of series',
+ASSUMPTIONS = ['stitched lists hold Series (named or not) or one-column frames; one-column frames with DIFFERENT column labels and n = 1 are not generated (pd.concat keeps one column per label); single slices: the index may be in any stored order and repeat timestamps; stitching / df_unslice: strictly increasing timestamps', 'elements of a stitched list are Series; bound lists are monotone and as long as the list of series',
                'df_unslice: values are not NaN (NaN marks "no data" in the stitched frame) and bounds strictly increasing']
 EXHAUSTIVE = {'quick': False, 'thorough': False}
 
@@ -119,8 +119,13 @@ def py_bound_list(xs, all_xs):
 def fl(v):
     return np.nan if v is None else np.inf if v == PINF else -np.inf if v == NINF else float(v)
 
-def mk_series(s):
-    return pd.Series([fl(v) for _, v in s], pd.DatetimeIndex([T(t) for t, _ in s]), dtype=float)
+def mk_series(s, name=None, elem='S'):
+    x = pd.Series([fl(v) for _, v in s], pd.DatetimeIndex([T(t) for t, _ in s]), dtype=float, name=_nm(name))
+    return x.to_frame(name=0 if name is None else _nm(name)) if elem == 'D1' else x      # 'D1': a one-column DataFrame
+
+def mk_list(case):
+    names = case.get('names') or [None] * len(case['ss'])
+    return [mk_series(s, nm, case.get('elem', 'S')) for s, nm in zip(case['ss'], names)]
 
 def _nm(x):
     return tuple(x) if isinstance(x, list) else x
@@ -289,7 +294,7 @@ def impl(case):
                         % (case['ts'], case['lb'], case['ub'], 'default' if oc is None else oc, o[1], o[2], exp[0], exp[1]))
         return {'status': 'ok', 'obs': o, 'viol': viol}
     if k == 'stitch':
-        ss_objs = [mk_series(s) for s in case['ss']]
+        ss_objs = mk_list(case)
         before = [observe(s) for s in ss_objs]
         try:
             if case.get('single'):      # one series, several windows: df_slice(ts, [lb...], [ub...])
@@ -301,8 +306,15 @@ def impl(case):
             expected_err = case['mode'] == 'both' and _dir(case['lbs']) != _dir(case['ubs'])
             return {'status': name, 'obs': ['ERR', name], 'viol': None if expected_err else 'df_slice raised %s: %s' % (name, str(e)[:100])}
         o = observe(r)
+        want_kind = 'D' if (case['n'] > 1 or case.get('elem') == 'D1') else 'S'
+        kind_ok = r is None or o[0] == want_kind
+        if o is not None and case.get('elem') == 'D1' and case['n'] <= 1 and o[0] == 'D' and all(len(row) == 1 for row in o[2]):
+            o = ['S'] + o[1:]        # one-column frames stitched with n = 1 give a one-column frame: same cells as the Series the model returns
         if [observe(s) for s in ss_objs] != before:
             viol = 'df_slice modified one of the series'
+        elif not kind_ok:
+            viol = 'stitching %d %s with n=%d returned a %s' % (len(ss_objs), 'one-column frames' if case.get('elem') == 'D1' else 'series', case['n'], o[0])
+
         elif not case['ss']:
             if r is not None: viol = 'empty list of series gave %r' % (o,)
         else:
@@ -312,11 +324,13 @@ def impl(case):
             if o[1] != et or o[2] != er:
                 viol = ('df_slice(series %r, lb=%r, ub=%r, %r, n=%d) = index %r values %r; taking interval i from series i (column j from series i+j) gives %r %r'
                         % (case['ss'], case.get('lbs'), case.get('ubs'), oc, case['n'], o[1], o[2], et, er))
+            elif case['n'] > 1 and list(r.columns) != list(range(r.shape[1])):
+                viol = 'n=%d: the columns are labelled %r, not by position 0..%d (series names %r)' % (case['n'], list(r.columns), r.shape[1] - 1, case.get('names'))
             elif len(set(o[1])) != len(o[1]) and _strict(case) and closed(oc[0]) != closed(oc[1]):
                 viol = 'a timestamp occurs twice in the stitched result: %r' % (o[1],)
         return {'status': 'ok', 'obs': o, 'viol': viol}
     # unslice round trip
-    ss_objs = [mk_series(s) for s in case['ss']]
+    ss_objs = mk_list(case)
     ubs = [T(u) for u in case['ubs']]
     try:
         f = df_slice(ss_objs, ub=py_bound_list(case['ubs'], case['ubs']), n=case['n'])
@@ -377,7 +391,8 @@ def shape(case):
         return 'slice:%s:%s:%s%s%s%s%s' % (f(case['lb']), f(case['ub']), ocs, wrap, ':us' if case.get('unit') == 'us' else '', ':long' if case.get('long') else '', ':index' if case['form'] == 'I' else '') + (':' + case['order'] if case.get('order') else '')
     if case['kind'] == 'stitch':
         l = case['lbs'] if case['mode'] == 'lb' else case['ubs']
-        return 'stitch:%s:%s:n%d%s' % (case['mode'], 'inc' if _dir(l) else 'dec', min(case['n'], 3), ':single' if case.get('single') else '')
+        return 'stitch:%s:%s:n%d%s%s%s' % (case['mode'], 'inc' if _dir(l) else 'dec', min(case['n'], 3), ':single' if case.get('single') else '',
+                                        ':named' if case.get('names') and any(x is not None for x in case['names']) else '', ':frames' if case.get('elem') == 'D1' else '')
     return 'unslice:n%d' % min(case['n'], 3)
 
 # ------------------------------------------------------------------ generation
@@ -397,6 +412,20 @@ def rand_bound(rng, ts):
         lo, hi = min(ts), max(ts)
         return ['at', rng.choice([lo - 9, lo - 3, lo, hi, hi + 3, hi + 12] + ([rng.choice(ts)] * 4) + [rng.choice(ts) + rng.choice([-3, 3, 9])] * 3)]
     return ['tod', rng.choice([0, 3, 6, 9, 12, 15, 18, 21, 6, 18])]
+
+def name_series(rng, c, m):
+    """the listed series may carry names (contract codes, all the same name, some unnamed, ints) or be one-column frames"""
+    q = rng.random()
+    if q < 0.15: c['names'] = ['%s%d' % ('HMUZ'[i % 4], i // 4) for i in range(m)]
+    elif q < 0.3: c['names'] = ['close'] * m
+    elif q < 0.42: c['names'] = [rng.choice([None, 'close', 'H0', 'px']) for _ in range(m)]
+    elif q < 0.5: c['names'] = [rng.choice([0, 1, m - 1 - i]) for i in range(m)]
+    if rng.random() < 0.15:
+        c['elem'] = 'D1'
+        if c['n'] <= 1:                      # with n = 1 the frames are concatenated as they are: same column label (see report)
+            lab = rng.choice([None, 'close', 0])
+            c['names'] = [lab] * m
+    return c
 
 BFORMS = ['datetime', 'datetime', 'Timestamp', 'np', 'date', 'str', 'int']
 def decorate(rng, c):
@@ -525,6 +554,7 @@ def gen_cases(rng, tier):
         ubs = rand_ubs(rng, m)
         c = decorate(rng, dict(kind='stitch', ss=ss, n=n, mode=mode, oc=rng.choice([None, None, None, '(]', '[)', '[]', '()'])))
         dec = rng.random() < 0.3
+        name_series(rng, c, m)
         if rng.random() < 0.1:               # one series, several windows: df_slice(ts, [lb...], [ub...])
             delta = rng.choice([6, 12, 3])
             c.update(mode='both', single=True, n=1, ss=[ss[0]] * m, lbs=[x - delta for x in ubs], ubs=ubs)
@@ -547,7 +577,12 @@ def gen_cases(rng, tier):
         for i in range(m):
             ts = rand_index(rng, rng.choice([0, 2, 3, 4, 6]))
             ss.append([[t, rng.choice([PINF, NINF]) if rng.random() < 0.1 else 1000 * (i + 1) + q] for q, t in enumerate(ts)])
-        cases.append(decorate(rng, dict(kind='unslice', ss=ss, n=rng.randrange(1, m + 1), ubs=rand_ubs(rng, m, strict=True))))
+        c = decorate(rng, dict(kind='unslice', ss=ss, n=rng.randrange(1, m + 1), ubs=rand_ubs(rng, m, strict=True)))
+        q = rng.random()
+        if q < 0.15: c['names'] = ['%s%d' % ('HMUZ'[i % 4], i // 4) for i in range(m)]
+        elif q < 0.3: c['names'] = ['close'] * m
+        elif q < 0.4: c['names'] = [rng.choice([None, 'close', 'H0']) for _ in range(m)]
+        cases.append(c)
     return cases
 
 def shrink(case):
@@ -564,7 +599,7 @@ def shrink(case):
                 yield dict(case, **{key: None})
     else:
         for i, s in enumerate(case['ss']):
-            for q in range(len(s)):
+            for q in range(len(s) if len(s) > 1 else 0):      # keep one row per series so that the shrunk input still shows data
                 yield dict(case, ss=case['ss'][:i] + [s[:q] + s[q + 1:]] + case['ss'][i + 1:])
         if case['n'] > 1:
             yield dict(case, n=case['n'] - 1)
